@@ -90,7 +90,8 @@ func (c *Ctx) Reach(roots []*ssa.Function) []*ssa.Function {
 	}
 	keep := map[*ssa.Function]bool{}
 	for f := range all {
-		if load.InRepoNonGen(f) && f.Synthetic == "" {
+		// source functions, and the instantiations of the repository's own generic helpers
+		if load.InRepoNonGen(f) && (f.Synthetic == "" || strings.HasPrefix(f.Synthetic, "instance of")) {
 			keep[f] = true
 		}
 	}
